@@ -87,19 +87,22 @@ static void sint_body(bool small) {
 // fetch/fetchPOD of rest+1, rest+2, 2^63, SIZE_MAX, SIZE_MAX-pos+k (k=0..2: pos+n wraps to k-1) must be refused and leave pos alone;
 // set_pos(p) for p in {0,pos,size-1,size,size+1,SIZE_MAX} succeeds iff p < size (header/impl contract), then reads come from p.
 using tbox::util::Serializer; using tbox::util::Deserializer; using tbox::util::Endian;
-enum { F8, F16, F32, F64, FBLOB, FSW, NF_BASE, FI8 = NF_BASE, FI16, FI32, FI64, FFLT, FDBL, NF_ALL };
-static const char *kF[] = {"u8", "u16", "u32", "u64", "blob", "SWITCH", "i8", "i16", "i32", "i64", "f32", "f64"};
+enum { F8, F16, F32, F64, FBLOB, FSW, NF_BASE, FI8 = NF_BASE, FI16, FI32, FI64, FFLT, FDBL, NF_ALL, FPOD = NF_ALL };   // FPOD: appendPOD/fetchPOD of an arbitrary width (phase C)
+static const char *kF[] = {"u8", "u16", "u32", "u64", "blob", "SWITCH", "i8", "i16", "i32", "i64", "f32", "f64", "pod"};
+// the protected capacity gate, reached through a using-declaration (public C++ means; no private member of cpp-tbox is named by this check)
+struct SerProbe : Serializer { using Serializer::Serializer; using Serializer::extendSize; };
 static const char *kCfg[] = {"BE", "LE", "default(BE)"};
 static const char *kApi[] = {"append/fetch", "POD/NoCopy", "stream<<>>"};
 struct Field { int kind; uint64_t v; std::vector<uint8_t> blob;
   size_t width() const { switch (kind) { case F8: case FI8: return 1; case F16: case FI16: return 2; case F32: case FI32: case FFLT: return 4; case F64: case FI64: case FDBL: return 8; case FSW: return 0; default: return blob.size(); } } };
 static void ref_put(std::vector<uint8_t> &o, const Field &f, bool big) {
   if (f.kind == FSW) return;
+  if (f.kind == FPOD) { if (big) o.insert(o.end(), f.blob.rbegin(), f.blob.rend()); else o.insert(o.end(), f.blob.begin(), f.blob.end()); return; }   // header: POD bytes as in memory on little, reversed on big
   if (f.kind == FBLOB) { o.insert(o.end(), f.blob.begin(), f.blob.end()); return; }
   size_t w = f.width(); for (size_t i = 0; i < w; i++) { size_t sh = big ? (w - 1 - i) * 8 : i * 8; o.push_back((uint8_t)(f.v >> sh)); } }
 static uint64_t ref_get(const uint8_t *p, size_t w, bool big) { uint64_t v = 0; for (size_t i = 0; i < w; i++) { size_t sh = big ? (w - 1 - i) * 8 : i * 8; v |= (uint64_t)p[i] << sh; } return v; }
 static std::string seq_str(const std::vector<Field> &fs, int cfg, int vs, int api) {
-  std::string s = std::string(kCfg[cfg]) + "["; for (auto &f : fs) { s += kF[f.kind]; if (f.kind == FBLOB) s += "(" + std::to_string(f.blob.size()) + ")"; s += " "; } return s + "] valueset=" + std::to_string(vs) + " api=" + kApi[api]; }
+  std::string s = std::string(kCfg[cfg]) + "["; for (auto &f : fs) { s += kF[f.kind]; if (f.kind == FBLOB || f.kind == FPOD) s += "(" + std::to_string(f.blob.size()) + ")"; s += " "; } return s + "] valueset=" + std::to_string(vs) + " api=" + kApi[api]; }
 static Endian en_of(bool big) { return big ? Endian::kBig : Endian::kLittle; }
 static bool g_ser_huge = false;   // C19_SER_HUGE_APPEND=1: also ask the Serializer to append blobs whose claimed length makes pos+len wrap (see the final report of the strengthening pass)
 
@@ -111,6 +114,7 @@ static bool ser_put(Serializer &s, const Field &f, int api, bool &big, std::stri
       if (api == 2) s << ne; else { Endian old = s.setEndian(ne); if (old != en_of(big)) err = "serializer-setEndian-returns-wrong-old-value"; }
       big = !big; return true; }
     case FBLOB: { Ex b(f.blob.data(), f.blob.size()); return s.append(b.p, f.blob.size()); }
+    case FPOD: { Ex b(f.blob.data(), f.blob.size()); return s.appendPOD(b.p, f.blob.size()); }
     case F8: if (api == 2) { s << (uint8_t)f.v; return s.pos() != p0; } return s.append((uint8_t)f.v);
     case F16: { uint16_t v = (uint16_t)f.v; if (api == 2) { s << v; return s.pos() != p0; } return api == 1 ? s.appendPOD(&v, 2) : s.append(v); }
     case F32: { uint32_t v = (uint32_t)f.v; if (api == 2) { s << v; return s.pos() != p0; } return api == 1 ? s.appendPOD(&v, 4) : s.append(v); }
@@ -127,16 +131,19 @@ static bool ser_put(Serializer &s, const Field &f, int api, bool &big, std::stri
 // one item on the deserializer.  ok = accepted; got = value read (scalars) ; same = output as the model demands
 static void des_get(Deserializer &d, const Field &f, int api, bool &big, const uint8_t *base, size_t pos, bool fit, bool &ok, bool &same, std::string &err) {
   const size_t p0 = d.pos(), w = f.width(); const uint64_t S = 0x5A5A5A5A5A5A5A5Aull;
-  const uint64_t mask = w >= 8 ? ~0ull : ((1ull << (8 * w)) - 1);
-  const uint64_t want = (fit && f.kind != FBLOB && f.kind != FSW) ? ref_get(base + pos, w, big) : 0;   // decided by the reference bytes at the model position
+  const uint64_t mask = w >= 8 ? ~0ull : ((1ull << (8 * w)) - 1);   // (scalars only)
+  const uint64_t want = (fit && w <= 8 && f.kind != FBLOB && f.kind != FSW && f.kind != FPOD) ? ref_get(base + pos, w, big) : 0;   // decided by the reference bytes at the model position
   uint64_t got = 0; ok = false; same = true;
   switch (f.kind) {
     case FSW: { const Endian ne = en_of(!big);
       if (api == 2) d >> ne; else { Endian old = d.setEndian(ne); if (old != en_of(big)) err = "deserializer-setEndian-returns-wrong-old-value"; }
       big = !big; ok = true; return; }
     case FBLOB: { Ex o(w, 0x5A);
-      if (api == 1) { const void *p = d.fetchNoCopy(w); ok = p != nullptr; same = !ok || (p == base + pos && (w == 0 || !fit || memcmp(p, f.blob.data(), w) == 0)); }
+      if (api == 1) { const void *p = d.fetchNoCopy(w); ok = p != nullptr; same = !ok || p == base + pos; }
       else { ok = d.fetch(o.p, w); if (ok) same = (w == 0 || !fit || memcmp(o.p, base + pos, w) == 0); else for (size_t j = 0; j < w; j++) same &= (o.p[j] == 0x5A); }
+      return; }
+    case FPOD: { Ex o(w, 0x5A); ok = d.fetchPOD(o.p, w);                 // expected: the reference bytes at the model position, reversed when big
+      if (ok) { for (size_t j = 0; j < w && fit; j++) same &= (o.p[j] == base[pos + (big ? w - 1 - j : j)]); } else for (size_t j = 0; j < w; j++) same &= (o.p[j] == 0x5A);
       return; }
     case F8: { uint8_t v = (uint8_t)S; if (api == 2) { d >> v; ok = d.pos() != p0; } else ok = d.fetch(v); got = v; } break;
     case F16: { uint16_t v = (uint16_t)S; if (api == 2) { d >> v; ok = d.pos() != p0; } else ok = api == 1 ? d.fetchPOD(&v, 2) : d.fetch(v); got = v; } break;
@@ -186,11 +193,12 @@ static void ser_case(const std::vector<Field> &fs, int cfg, int vs, int api) {
   std::vector<uint8_t> want; { bool b = big0; for (auto &f : fs) { if (f.kind == FSW) b = !b; else ref_put(want, f, b); } }
   const size_t total = want.size();
   const std::string ss = seq_str(fs, cfg, vs, api);
-  // ---- raw mode, capacity exact / exact-1 / 0
-  long caps[3] = {(long)total, (long)total - 1, 0};
-  for (int ci = 0; ci < 3; ci++) { long cap = caps[ci]; if (cap < 0 || (ci == 2 && total <= 1)) continue;
+  // ---- raw mode, capacity exact / exact-1 / 0; for sequences of <= 3 items (total <= 40) EVERY capacity 0..total, so that a refused item is
+  //      followed by narrower ones that fit (a refusal must not be sticky and must not move the position)
+  std::vector<long> caps; if (fs.size() <= 3 && total <= 40) { for (long c = (long)total; c >= 0; c--) caps.push_back(c); } else { caps.push_back((long)total); if (total >= 1) caps.push_back((long)total - 1); if (total >= 2) caps.push_back(0); }
+  for (size_t ci = 0; ci < caps.size(); ci++) { long cap = caps[ci];
     C.transitions++; Ex out((size_t)cap, 0xCC);
-    std::unique_ptr<Serializer> sp(cfg == 2 ? new Serializer(out.p, (size_t)cap) : new Serializer(out.p, (size_t)cap, en_of(big0))); Serializer &s = *sp;
+    std::unique_ptr<SerProbe> sp(cfg == 2 ? new SerProbe(out.p, (size_t)cap) : new SerProbe(out.p, (size_t)cap, en_of(big0))); SerProbe &s = *sp;
     size_t pos = 0; std::vector<uint8_t> model; bool big = big0;   // model: an append succeeds iff pos + width <= cap, a failed append changes nothing
     for (size_t i = 0; i < fs.size(); i++) { bool fit = pos + fs[i].width() <= (size_t)cap; const bool bigv = fs[i].kind == FSW ? !big : big; std::string err;
       const std::string fstr = ss + " field#" + std::to_string(i) + " cap=" + std::to_string(cap);
@@ -205,18 +213,27 @@ static void ser_case(const std::vector<Field> &fs, int cfg, int vs, int api) {
       if (ok != fit) { viol(std::string("serializer-append-") + (fit ? "refused-although-room" : "accepted-without-room"), fstr); break; }
       if (fit) { ref_put(model, fs[i], bigv); pos += fs[i].width(); }
       if (s.pos() != pos) { viol("serializer-pos-wrong", fstr + " pos=" + std::to_string(s.pos())); break; } }
-    if (model.size() <= (size_t)cap && memcmp(out.p, model.data(), model.size()) != 0) viol(std::string("serializer-bytes-wrong-") + (big0 ? "big" : "little") + "-endian", ss + " cap=" + std::to_string(cap) + " got=" + hexs(out.p, model.size()) + " want=" + hexs(model.data(), model.size()));
+    if (model.size() <= (size_t)cap && memcmp(out.p, model.data(), model.size()) != 0) viol(std::string("serializer-bytes-wrong-") + (big0 ? "big" : "little") + "-endian", ss + " cap=" + std::to_string(cap) + " got=" + hexs(out.p, std::min<size_t>(model.size(), 64)) + " want=" + hexs(model.data(), std::min<size_t>(model.size(), 64)));
     for (size_t i = model.size(); i < (size_t)cap; i++) if (out.p[i] != 0xCC) { viol("serializer-writes-beyond-pos", ss + " cap=" + std::to_string(cap)); break; }
   }
-  // ---- vector mode
-  { C.transitions++; std::vector<uint8_t> blk;
-    std::unique_ptr<Serializer> sp(cfg == 2 ? new Serializer(blk) : new Serializer(blk, en_of(big0))); Serializer &s = *sp; bool big = big0; std::string err;
-    Guard g("Serializer.append(vector)", want.data(), total);
-    for (auto &f : fs) { if (!ser_put(s, f, api, big, err) && f.width() != 0) viol("serializer-vector-append-refused", ss); if (!err.empty()) { viol(err, ss + " mode=vector"); break; } }
-    if (g.hit()) viol(generic_san_sig("serializer-append-vector"), ss + " " + Guard::desc());
-    if (blk != want || s.pos() != total) viol(std::string("serializer-bytes-wrong-") + (big0 ? "big" : "little") + "-endian", ss + " mode=vector got=" + hexs(blk.data(), blk.size()) + " want=" + hexs(want.data(), total)); }
+  // ---- vector mode: on a new empty vector, on a vector pre-filled with 1 / total / total+5 bytes of 0xEE, on an empty vector with reserve(64),
+  //      and a SECOND Serializer over the vector the first one produced.  The vector is the output: once any append call was made (also one of
+  //      width 0) its content is exactly the reference bytes and size() == pos(); if none was made it is untouched.
+  { bool any = false; for (auto &f : fs) if (f.kind != FSW) any = true;
+    const size_t pre[5] = {0, 1, total, total + 5, 0};
+    for (int vm = 0; vm < 6; vm++) { C.transitions++; std::vector<uint8_t> blk; const char *vname = vm == 0 ? "empty" : vm == 4 ? "reserve(64)" : vm == 5 ? "second-serializer-over-first-result" : "prefilled";
+      if (vm >= 1 && vm <= 3) blk.assign(pre[vm], 0xEE); if (vm == 4) blk.reserve(64);
+      const std::vector<uint8_t> before = blk;
+      for (int round = 0; round < (vm == 5 ? 2 : 1); round++) {
+        std::unique_ptr<Serializer> sp(cfg == 2 ? new Serializer(blk) : new Serializer(blk, en_of(big0))); Serializer &s = *sp; bool big = big0; std::string err;
+        Guard g("Serializer.append(vector)", want.data(), total);
+        for (auto &f : fs) { if (!ser_put(s, f, api, big, err) && f.width() != 0) viol("serializer-vector-append-refused", ss); if (!err.empty()) { viol(err, ss + " mode=vector"); break; } }
+        if (g.hit()) viol(generic_san_sig("serializer-append-vector"), ss + " vector=" + vname + " " + Guard::desc());
+        const std::vector<uint8_t> &exp = any ? want : before;
+        if (blk != exp || s.pos() != total) viol(vm == 0 ? std::string("serializer-bytes-wrong-") + (big0 ? "big" : "little") + "-endian" : std::string("serializer-vector-not-exactly-the-serialized-bytes"),
+                                                 ss + " mode=vector(" + vname + (vm >= 1 && vm <= 3 ? " " + std::to_string(pre[vm]) : "") + ") size=" + std::to_string(blk.size()) + " pos=" + std::to_string(s.pos()) + " got=" + hexs(blk.data(), std::min<size_t>(blk.size(), 64)) + " want=" + hexs(exp.data(), std::min<size_t>(exp.size(), 64))); } } }
   // ---- Deserializer over the reference bytes, size exact / exact-1 / 0
-  for (int ci = 0; ci < 3; ci++) { long cap = caps[ci]; if (cap < 0 || (ci == 2 && total <= 1)) continue;
+  for (size_t ci = 0; ci < caps.size(); ci++) { long cap = caps[ci];
     C.transitions++; Ex in(want.data(), (size_t)cap);
     std::unique_ptr<Deserializer> dp(cfg == 2 ? new Deserializer(in.p, (size_t)cap) : new Deserializer(in.p, (size_t)cap, en_of(big0))); Deserializer &d = *dp;
     size_t pos = 0; bool big = big0, alive = true;
@@ -250,10 +267,17 @@ static Field make_field(int kind, int i, int vs) {
   f.v &= mask;
   if (kind == FBLOB) { size_t bl = vs == 0 ? 3 : vs == 1 ? 0 : vs == 2 ? 1 : 2; for (size_t j = 0; j < bl; j++) f.blob.push_back((uint8_t)(0xA1 + i * 0x10 + j)); }
   return f; }
-static void ser_enum(int maxfA, int maxfB);
-void sweep_ser() { ser_enum(thorough() ? 6 : 4, thorough() ? 4 : 3); }
-void align_ser() { ser_enum(2, 2); }      // alignment sweep: raw output buffer / deserializer input / blob sources at the active start offsets
-static void ser_enum(int maxfA, int maxfB) {
+// phase C ("wide") items: blobs of 255 / 256 / 257 / 300 (thorough 70000) bytes and PODs of 1 / 3 / 5 / 16 bytes, by value set 0..3
+static Field make_wide(int kind, int i, int ws) {
+  static const size_t pw[4] = {1, 3, 5, 16}; const size_t bw[4] = {255, 256, 257, thorough() ? (size_t)70000 : (size_t)300};
+  if (kind != FBLOB && kind != FPOD) return make_field(kind, i, 0);
+  Field f; f.kind = kind; f.v = 0; const size_t n = kind == FBLOB ? bw[ws] : pw[ws];
+  for (size_t j = 0; j < n; j++) f.blob.push_back((uint8_t)(0xA1 + i * 0x31 + j * 7 + (j >> 8) * 13));
+  return f; }
+static void ser_enum(int maxfA, int maxfB, int maxfC);
+void sweep_ser() { ser_enum(thorough() ? 6 : 4, thorough() ? 4 : 3, thorough() ? 4 : 3); }
+void align_ser() { ser_enum(2, 2, 1); }      // alignment sweep: raw output buffer / deserializer input / blob sources at the active start offsets
+static void ser_enum(int maxfA, int maxfB, int maxfC) {
   g_ser_huge = getenv("C19_SER_HUGE_APPEND") && atoi(getenv("C19_SER_HUGE_APPEND")) > 0;
   // (A) every sequence of 0..4 items over {u8,u16,u32,u64,blob,SWITCH} (1555) x construction{big,little,no endian argument} x value set{distinct bytes with
   //     high bits, all zero, all ones} x blob length{3,0,1} (by value set) x api{append/fetch, appendPOD/fetchPOD/fetchNoCopy, operator<< >>}   [thorough: 0..6 items]
@@ -272,4 +296,17 @@ static void ser_enum(int maxfA, int maxfB) {
           if (phase == 0 && nf == 3 && code == 38 && vs == 0 && api == 0 && cfg == 0) sample("serializer " + seq_str(fs, cfg, vs, api) + " raw caps{exact,exact-1,0} + vector + deserializer sizes{exact,exact-1,0}, hostile requests + set_pos at every position");
           if (phase == 1 && nf == 3 && code == 6 + 12 * 5 + 144 * 10 && vs == 2 && cfg == 2) sample("serializer " + seq_str(fs, cfg, vs, api));
         } } } }
+  // (C) wide items: every sequence of 0..maxfC items over {u8, u32, blob, SWITCH, pod} that contains a blob or pod x construction x 4 width sets
+  //     (blob 255/256/257/300 [thorough 70000] bytes; appendPOD/fetchPOD of 1/3/5/16 bytes) x api{append/fetch (copying), fetchNoCopy}
+  static const int kindsC[5] = {F8, F32, FBLOB, FSW, FPOD};
+  for (int nf = 0; nf <= maxfC; nf++) { long cnt = 1; for (int i = 0; i < nf; i++) cnt *= 5;
+    for (long code = 0; code < cnt && !out_of_time(); code++) {
+      bool wide = false; { long c = code; for (int i = 0; i < nf; i++) { int k = kindsC[c % 5]; if (k == FBLOB || k == FPOD) wide = true; c /= 5; } }
+      if (!wide) continue;
+      if ((int)(nseq++ % g_nparts) != g_part) continue;
+      for (int ws = 0; ws < 4; ws++) for (int cfg = 0; cfg < 3; cfg++) for (int api = 0; api < 2; api++) {
+        std::vector<Field> fs; long c = code; for (int i = 0; i < nf; i++) { fs.push_back(make_wide(kindsC[c % 5], i, ws)); c /= 5; }
+        ser_case(fs, cfg, 10 + ws, api);
+        if (nf == 2 && code == 2 + 5 * 4 && ws == 1 && cfg == 0 && api == 0) sample("serializer " + seq_str(fs, cfg, 10 + ws, api) + " (wide items)");
+      } } }
 }
